@@ -38,7 +38,10 @@ func (valdec ptrDecoder) Decode(dec *Decoder, p interface{}, tag byte) {
 		// a reference to an object of this very pointer type: alias it, so that
 		// shared and cyclic structures keep their shape instead of being copied
 		// (for a cycle, copied from an object that is still incomplete)
-		o := dec.refer.Read(dec.ReadInt())
+		o := dec.readReferred()
+		if o == nil && dec.Error != nil {
+			return
+		}
 		if reflect.TypeOf(o) == valdec.t.Type1() {
 			*ptr = reflect2.PtrOf(o)
 			return
